@@ -8,9 +8,13 @@ import (
 	segment "github.com/blevesearch/scorch_segment_api/v2"
 
 	"verif/harness/model"
+	"verif/harness/oracle"
 )
 
 // VecBuild reports whether zapx was compiled with the `vectors` tag.
 const VecBuild = false
 
 func checkVectors(c *Ctx, tag string, seg segment.Segment, m *model.Seg, rng *rand.Rand) {}
+
+func checkVectorsLight(r *oracle.Report, tag string, seg segment.Segment, m *model.Seg, rng *rand.Rand) {
+}
